@@ -291,7 +291,7 @@ def _short_sim(design, seed, idx, nm):
     return "ok", {}
 
 
-PIGGY = ["c01", "c03", "c04", "c14", "c15", "c16", "c07", "c08"]
+PIGGY = ["c01", "c03", "c03comb", "c04", "c14", "c15", "c16", "c07", "c08", "c03comb"]
 
 
 def piggy_source(seed, idx, tier):
@@ -309,6 +309,16 @@ def piggy_source(seed, idx, tier):
 
         prog = c03.gen_program(seed + 7, j, tier)
         return w, seq.render(prog), any(c["kind"] == "comb" for c in prog["ctxs"])
+    if w == "c03comb":
+        # designs with an unclocked sequential context (inferred sensitivity list), some of which read back a signal they drive
+        from vf.gen import seq
+        from vf.props import c03
+
+        for k in range(40):
+            prog = c03.gen_program(seed + 11, j * 40 + k, tier)
+            if any(c["kind"] == "comb" for c in prog["ctxs"]):
+                break
+        return w, seq.render(prog), True
     if w == "c04":
         from vf.gen import coro
         from vf.props import c04
